@@ -21,7 +21,7 @@ Definition wcrash : dstate :=
 
 Example wtrace_shape :
   map (fun e => match e with MResize n => (0, n) | MSave _ => (1, 0) | MSched p _ => (2, p) | MFsync => (3, 0) | MDrain => (4, 0) end) wtrace =
-  [(0, 8); (1, 0); (2, 0); (2, 1); (2, 2); (2, 3); (3, 0); (1, 0); (2, 4); (2, 5); (2, 6); (2, 7); (3, 0); (4, 0); (1, 0)].
+  [(0, 8); (1, 0); (2, 0); (2, 1); (2, 2); (2, 3); (3, 0); (1, 0); (2, 4); (2, 5); (2, 6); (2, 7); (4, 0); (3, 0); (1, 0)].
 Proof. vm_compute. reflexivity. Qed.
 
 Theorem kill_inv_refuted_autosave_threaded :
